@@ -61,7 +61,7 @@ package xmpp
 //@   callsite (*mellium.im/sasl.Negotiator).Step#2
 //@     after: lastMore = ret0
 //@   callsite decodeSASLChallenge#1
-//@     after: sawSuccess = ret2 == nil
+//@     after: sawSuccess = ret1 && ret2 == nil
 //@   callsite decodeSASLChallenge#2
 //@     after: sawSuccess = ret1 && ret2 == nil
 //@   ensures[C03] result0 & Authn != 0 ==> result2 == nil && !lastMore && sawSuccess
